@@ -302,6 +302,8 @@ def run(ctx):
             Lk = 4
         if c.keep:
             Lk -= 1
+        if len(alpha) > 14:
+            Lk = min(Lk, 3)          # large fragment alphabets (\BLOCK{ ... }): 17^4 per configuration is too many
         for s in L.all_strings(alpha, Lk):
             cases.append((c, s))
         if c.name == "default" and not c.keep and (ctx.tier != "thorough" or (c.trim and c.lstrip)):
